@@ -24,6 +24,7 @@ use super::{
     query_language::{
         data_model_parser::DataModel, deletion_parser::DeletionParser,
         mutation_parser::MutationParser, parameter::Parameters, query_parser::QueryParser,
+        FieldType,
     },
     room_node::RoomNode,
     sqlite_database::{Database, WriteMessage, Writeable},
@@ -1307,6 +1308,21 @@ impl GraphDatabase {
                     continue;
                 }
             };
+            //like the rows, a reference must conform to the data model: its label is a field of the entity that holds references
+            let is_reference_field = match self.data_model.get_entity(&name) {
+                Ok(entity) => entity.fields.values().any(|field| {
+                    field.short_name.eq(&edge.label)
+                        && matches!(
+                            field.field_type,
+                            FieldType::Array(_) | FieldType::Entity(_)
+                        )
+                }),
+                Err(_) => false,
+            };
+            if !is_reference_field {
+                invalid_edges.push(edge.src);
+                continue;
+            }
             valid_edges.push((edge, name));
         }
 
